@@ -10,6 +10,7 @@ for pid, P in props.PROPS.items():
     if only and pid not in only: continue
     if "cmd" in P: continue
     for m in P["mc"][tier]:
+        if os.environ.get("MC_ONLY") and os.environ["MC_ONLY"] not in m["name"]: continue
         key = (m["name"], tuple(P["invariants"]))
         if "cmd" in P: continue
         try:
